@@ -394,3 +394,328 @@ Proof.
   - eapply Forall_impl; [|exact H4]. intros [[y u] m] Hp. exact (unmap_check_lin l b y u m C Hp).
   - exact (mono_check_sound _ _ _ H5).
 Qed.
+
+(* ---------- NewLog ---------- *)
+(* status 0 = nil error, 1 = RangeErr (2 = another error, 3 = panic are never accepted).
+   For finite arguments the specification is the acceptance rule of the property:
+   accepted exactly when base >= 2 and both ends are non-zero of one sign; the result then
+   holds the two ends in ascending order and the base. *)
+Definition newlog_accepts (a b : Q) (base : Z) : Prop :=
+  (2 <= base)%Z /\ ((0 < a /\ 0 < b) \/ (a < 0 /\ b < 0)).
+Definition newlog_fin_ok (a b : Q) (base st : Z) (rmn rmx : xreal) (rb : Z) : Prop :=
+  (newlog_accepts a b base ->
+     st = 0%Z /\ rb = base /\ exists lo hi, rmn = XFin lo /\ rmx = XFin hi /\
+       ((a <= b /\ lo == a /\ hi == b) \/ (b < a /\ lo == b /\ hi == a))) /\
+  (~ newlog_accepts a b base -> st = 1%Z).
+(* any arguments (NaN, infinities included): the observation agrees with the decision of
+   log.go:36-49 as transcribed in Model.Scale.new_log *)
+Definition newlog_ok (mn mx : xreal) (base st : Z) (rmn rmx : xreal) (rb : Z) : Prop :=
+  match new_log mn mx base with
+  | NL_rangeerr => st = 1%Z
+  | NL_ok a b c => st = 0%Z /\ xeq a rmn = true /\ xeq b rmx = true /\ c = rb
+  end.
+
+Lemma compare_newlog_sound mn mx base st rmn rmx rb c tag pos diag :
+  compare_newlog mn mx base st rmn rmx rb = verdict c tag pos diag -> (c = 0 \/ c = 1)%Z ->
+  newlog_ok mn mx base st rmn rmx rb.
+Proof.
+  unfold compare_newlog, newlog_ok. intros H C. destruct (new_log mn mx base) as [a b c0|].
+  - destruct (st =? 0)%Z eqn:S; cbn [negb] in H.
+    + destruct (xeq a rmn && xeq b rmx && (c0 =? rb)%Z) eqn:E.
+      * apply andb_prop in E. destruct E as [E E3]. apply andb_prop in E. destruct E as [E1 E2].
+        apply Z.eqb_eq in S, E3. auto.
+      * apply verdict_inj in H. unfold V_MISMATCH in H. lia.
+    + apply verdict_inj in H. unfold V_MISMATCH in H. lia.
+  - destruct (st =? 1)%Z eqn:S; [apply Z.eqb_eq in S; exact S|].
+    apply verdict_inj in H. unfold V_MISMATCH in H. lia.
+Qed.
+
+Theorem newlog_ok_fin a b base st rmn rmx rb :
+  newlog_ok (XFin a) (XFin b) base st rmn rmx rb -> newlog_fin_ok a b base st rmn rmx rb.
+Proof.
+  unfold newlog_ok, newlog_fin_ok, newlog_accepts. intro H.
+  pose proof (new_log_accepts_iff a b base) as A.
+  destruct (new_log (XFin a) (XFin b) base) as [lo hi bs|] eqn:N.
+  - destruct H as (S & E1 & E2 & E3). split.
+    + intros _. pose proof (new_log_result a b base lo hi bs N) as [B R]. rewrite B in E3. split; [exact S|]. split; [symmetry; exact E3|].
+      destruct R as [(L & -> & ->)|(L & -> & ->)]; apply xeq_fin in E1, E2;
+        destruct E1 as (q1 & -> & Q1); destruct E2 as (q2 & -> & Q2); exists q1, q2; repeat split; auto.
+    + intro NA. exfalso. apply NA. apply A. eauto.
+  - split.
+    + intro Acc. apply A in Acc. destruct Acc as (lo & hi & bs & Acc). discriminate.
+    + intros _. exact H.
+Qed.
+
+(* ---------- Log scales: the comparisons, read over Q ---------- *)
+(* (the decision structure and the closed forms are those of Model/Scale.v; that they are the
+   real-valued Log.Map / Log.Unmap is RealSpec.LogScaleModel; composed in Proofs/CheckC16R.v) *)
+Definition log_map_okQ (g : logscale) (b : Z) (x : Q) (m0 : xreal) : Prop :=
+  match log_map_dec g x with
+  | LM_nan => m0 = XNaN
+  | LM_half => exists q, m0 = XFin q /\ q == 1 # 2
+  | LM_val _ _ _ _ _ as d =>
+      exists q, m0 = XFin q /\
+        (x == g_min g -> Qabs (q - 0) <= e12) /\
+        (x == g_max g -> Qabs (q - 1) <= e12) /\
+        (forall e, lmap_exact b d = Some (XFin e) -> Qabs (q - e) <= e10 * (1 + Qabs e))
+  end.
+
+Lemma is_nan_true o : is_nan o = true -> o = XNaN.
+Proof. destruct o; cbn; try discriminate. reflexivity. Qed.
+
+Lemma map_check_log g b x m0 : passes (map_check (SLog g) b x m0) -> log_map_okQ g b x m0.
+Proof.
+  unfold log_map_okQ. cbn [map_check]. destruct (log_map_dec g x) as [| |neg cl mn mx ex] eqn:D; intro H.
+  - apply need_passes in H. exact (is_nan_true _ H).
+  - apply need_passes in H. apply xeq_fin in H. exact H.
+  - destruct m0 as [| |q]; try (apply failed_passes in H; contradiction).
+    apply andthen_passes in H. destruct H as [H H3]. apply andthen_passes in H. destruct H as [H1 H2].
+    apply need_passes in H1, H2. exists q. split; [reflexivity|]. split; [|split].
+    + intro E. destruct (Qeqb x (g_min g)) eqn:E'; [|gb_bool; contradiction]. cbn in H1. now apply within_sound.
+    + intro E. destruct (Qeqb x (g_max g)) eqn:E'; [|gb_bool; contradiction]. cbn in H2. now apply within_sound.
+    + intros e He. rewrite He in H3. apply need_passes in H3. now apply within_sound.
+Qed.
+
+Definition log_unmap_of_map_okQ (g : logscale) (x : Q) (ux : xreal) : Prop :=
+  match log_map_dec g x with
+  | LM_nan => ux = XNaN
+  | LM_half => exists u, ux = XFin u /\ Qabs (u - g_min g) <= e9 * Qabs (g_min g)
+  | LM_val _ _ _ _ _ => exists u, ux = XFin u /\ Qabs (u - x) <= e9 * Qabs x
+  end.
+Lemma unmap_of_map_check_log g x m0 ux :
+  passes (unmap_of_map_check (SLog g) x m0 ux) -> log_unmap_of_map_okQ g x ux.
+Proof.
+  unfold log_unmap_of_map_okQ. cbn [unmap_of_map_check]. destruct (log_map_dec g x); intro H; apply need_passes in H.
+  - exact (is_nan_true _ H).
+  - apply xwithin_fin in H. exact H.
+  - apply xwithin_fin in H. exact H.
+Qed.
+
+Definition log_probe_okQ (g : logscale) (b : Z) (r : Q) (p : probe) : Prop :=
+  log_map_okQ g b (p_x p) (p_m0 p) /\
+  obs_clamp (p_m0 p) (p_m1 p) /\
+  log_unmap_of_map_okQ g (p_x p) (p_ux p) /\
+  (~ r == 0 -> log_map_okQ g b (p_x2 p) (p_m02 p)).
+Lemma probe_check_log g b r p : passes (probe_check (SLog g) b r p) -> log_probe_okQ g b r p.
+Proof.
+  intro H. unfold probe_check in H.
+  apply andthen_passes in H. destruct H as [H H4].
+  apply andthen_passes in H. destruct H as [H H3].
+  apply andthen_passes in H. destruct H as [H1 H2].
+  split; [exact (map_check_log _ _ _ _ H1)|].
+  split; [apply need_passes in H2; exact (clamp_consistent_sound _ _ H2)|].
+  split; [exact (unmap_of_map_check_log _ _ _ _ H3)|].
+  intro R. destruct (Qeqb r 0) eqn:E; [gb_bool; contradiction|]. exact (map_check_log _ _ _ _ H4).
+Qed.
+
+(* y-probe of a Log scale: Unmap y is finite, has the sign of the domain, is within 1e-9
+   (relative) of the closed form where there is one, and Map (Unmap y) returns to y *)
+Definition log_yprobe_okQ (g : logscale) (b : Z) (t : Q * xreal * xreal) : Prop :=
+  let '(y, uy, muy) := t in
+  exists u, uy = XFin u /\
+    (if Qltb (g_min g) 0 then u < 0 else 0 < u) /\
+    (forall e, lunmap_exact b e12 (log_unmap_dec g y) = Some e -> Qabs (u - e) <= e9 * Qabs e) /\
+    ((g_min g == g_max g -> exists m, muy = XFin m /\ m == 1 # 2) /\
+     (~ g_min g == g_max g -> exists m, muy = XFin m /\ Qabs (m - y) <= tolm (SLog g) * (1 + Qabs y))).
+Lemma unmap_check_log g b y uy muy : passes (unmap_check (SLog g) b y uy muy) -> log_yprobe_okQ g b (y, uy, muy).
+Proof.
+  unfold log_yprobe_okQ. cbn [unmap_check]. destruct uy as [| |u]; intro H; try (apply failed_passes in H; contradiction).
+  apply andthen_passes in H. destruct H as [H H3]. apply andthen_passes in H. destruct H as [H1 H2].
+  exists u. split; [reflexivity|]. split; [|split].
+  - apply need_passes in H1. unfold sign_ok in H1. cbn [sc_min] in H1.
+    destruct (Qltb (g_min g) 0); gb_bool; exact H1.
+  - intros e He. rewrite He in H2. apply need_passes in H2. now apply within_sound.
+  - destruct (Qeqb (g_min g) (g_max g)) eqn:E; gb_bool; apply need_passes in H3; split; intro E'; try contradiction.
+    + apply xeq_fin in H3. exact H3.
+    + apply xwithin_fin in H3. exact H3.
+Qed.
+
+Definition log_scale_ok (gs : logscale) (b : Z) (r : Q) (ps : list probe) (g : list (Q * xreal))
+    (ys : list (Q * xreal * xreal)) (yg : list (Q * xreal)) : Prop :=
+  Forall (log_probe_okQ gs b r) ps /\
+  (~ r == 0 -> shift_ok_spec (SLog gs) (fin_pairs ps)) /\
+  mono_ok (direction (SLog gs)) (gap_x (SLog gs)) g /\
+  Forall (log_yprobe_okQ gs b) ys /\
+  mono_ok (direction (SLog gs)) (gap_y (SLog gs)) yg.
+
+Theorem compare_scale_log gs b r ps g ys yg :
+  passes3 (compare_scale (SLog gs) b r ps g ys yg) -> log_scale_ok gs b r ps g ys yg.
+Proof.
+  intro H. unfold compare_scale in H.
+  apply seq2_passes in H. destruct H as [H1 H].
+  apply seq2_passes in H. destruct H as [H2 H].
+  apply seq2_passes in H. destruct H as [H3 H].
+  apply seq2_passes in H. destruct H as [H4 H5].
+  apply each_passes in H1. apply whole_passes in H2, H3, H5. apply each_passes in H4.
+  split; [|split; [|split; [|split]]].
+  - eapply Forall_impl; [|exact H1]. intros p Hp. exact (probe_check_log gs b r p Hp).
+  - intro R. destruct (Qeqb r 0) eqn:E; [gb_bool; contradiction|]. exact (shift_check_none _ _ H2).
+  - exact (mono_check_sound _ _ _ H3).
+  - eapply Forall_impl; [|exact H4]. intros [[y u] m] Hp. exact (unmap_check_log gs b y u m Hp).
+  - exact (mono_check_sound _ _ _ H5).
+Qed.
+
+(* ---------- QQ ---------- *)
+(* two floats are the same value (NaN with NaN, same infinity, equal rationals) *)
+Definition xsame (a b : xreal) : Prop :=
+  match a, b with
+  | XNaN, XNaN => True
+  | XInf s, XInf t => s = t
+  | XFin x, XFin y => x == y
+  | _, _ => False
+  end.
+Lemma xeq_xsame a b : xeq a b = true -> xsame a b.
+Proof.
+  unfold xeq, xsame. destruct a as [|s|x], b as [|t|y]; cbn; try discriminate; auto.
+  - apply Bool.eqb_prop.
+  - intro H. apply within_sound in H. apply Qabs_le0 in H. lra.
+Qed.
+
+(* the guard under which the inverse law QQ.Unmap (QQ.Map x) = x is compared *)
+Definition qq_inv_guard (src dst : scale) (x m : Q) : bool :=
+  Qleb (Qabs m) 5 && well_cond src && well_cond dst && ((negb (sc_clamp src) && negb (sc_clamp dst)) || inside src x).
+Definition tol_qq_inv (src : scale) (x m : Q) : Q :=
+  e9 * (1 + Qabs m) * (match src with SLog _ => 1 + dub src | _ => 1 end) * (Qabs x + Qabs (sc_min src) + Qabs (sc_max src)).
+
+(* one probe of QQ{src,dst}.Map (the same reading with the roles swapped is QQ.Unmap):
+   x, sm = src.Map x, du = dst.Unmap sm, qm = QQ.Map x, back = QQ.Unmap qm *)
+Definition qq_probe_okQ (src dst : scale) (bs bd : Z) (p : qprobe) : Prop :=
+  (* QQ.Map x is bit for bit dst.Unmap (src.Map x) *)
+  xsame (q_du p) (q_qm p) /\
+  (* where the exact composite is rational, QQ.Map x is within tol_qq of it *)
+  (forall m v, sc_map_exact bs src (q_x p) = Some m -> sc_unmap_exact bd e12 dst m = Some (XFin v) ->
+     exists o, q_qm p = XFin o /\ Qabs (o - v) <= tol_qq dst m v) /\
+  (forall m, sc_map_exact bs src (q_x p) = Some m -> sc_unmap_exact bd e12 dst m = Some XNaN -> q_qm p = XNaN) /\
+  (* QQ.Unmap (QQ.Map x) returns to x wherever no clamp interferes *)
+  (forall x m, q_x p = XFin x -> q_sm p = XFin m -> qq_inv_guard src dst x m = true ->
+     exists o, q_back p = XFin o /\ Qabs (o - x) <= tol_qq_inv src x m).
+
+Lemma qq_check_sound src dst bs bd p : passes (qq_check src dst bs bd p) -> qq_probe_okQ src dst bs bd p.
+Proof.
+  intro H. unfold qq_check in H.
+  apply andthen_passes in H. destruct H as [H H3]. apply andthen_passes in H. destruct H as [H1 H2].
+  apply need_passes in H1. split; [exact (xeq_xsame _ _ H1)|]. split; [|split].
+  - intros m v Em Ev. rewrite Em, Ev in H2. apply need_passes in H2. apply xwithin_fin in H2. exact H2.
+  - intros m Em Ev. rewrite Em, Ev in H2. apply need_passes in H2. exact (is_nan_true _ H2).
+  - intros x m Ex Em G. rewrite Ex, Em in H3. unfold qq_inv_guard in G. rewrite G in H3.
+    apply need_passes in H3. apply xwithin_fin in H3. exact H3.
+Qed.
+
+Definition qq_ok (src : scale) (bs : Z) (dst : scale) (bd : Z) (xs ys : list qprobe) : Prop :=
+  Forall (qq_probe_okQ src dst bs bd) xs /\ Forall (qq_probe_okQ dst src bd bs) ys.
+Theorem compare_qq_sound src bs dst bd xs ys : passes3 (compare_qq src bs dst bd xs ys) -> qq_ok src bs dst bd xs ys.
+Proof.
+  intro H. unfold compare_qq in H. apply seq2_passes in H. destruct H as [H1 H2].
+  apply each_passes in H1, H2. split.
+  - eapply Forall_impl; [|exact H1]. intros p. apply qq_check_sound.
+  - eapply Forall_impl; [|exact H2]. intros p. apply qq_check_sound.
+Qed.
+
+(* Linear -> Linear: the composite is plain rational arithmetic, so EVERY probe is compared:
+   QQ.Map x is within tol of  y' * (dmx - dmn) + dmn  where y' is the source's Map value
+   (the affine formula, clamped if the source clamps) *)
+Definition lin_map_c (l : linear) (x y' : Q) : Prop :=
+  exists y, is_lin_map (l_min l) (l_max l) x y /\ y' == (if l_clamp l then clampq y else y).
+Lemma lin_map_c_is l x : lin_map_c l x (lin_map l x).
+Proof.
+  unfold lin_map_c, is_lin_map, lin_map. destruct (Qeqb (l_min l) (l_max l)) eqn:E; gb_bool.
+  - exists (1 # 2). split; [left; split; [exact E|reflexivity]|]. destruct (l_clamp l); reflexivity.
+  - exists ((x - l_min l) / (l_max l - l_min l)). split; [right; split; [exact E|reflexivity]|]. destruct (l_clamp l); reflexivity.
+Qed.
+Theorem qq_lin_lin_sound ls ld bs bd p x : q_x p = XFin x ->
+  qq_probe_okQ (SLin ls) (SLin ld) bs bd p ->
+  exists y' o, lin_map_c ls x y' /\ q_qm p = XFin o /\
+    Qabs (o - lin_unmap_spec (l_min ld) (l_max ld) y') <=
+      e9 * (Qabs (y' * (l_max ld - l_min ld)) + Qabs (l_min ld) + Qabs (l_max ld - l_min ld)).
+Proof.
+  intros Ex (_ & H & _). rewrite Ex in H. specialize (H (XFin (lin_map ls x)) (lin_unmap ld (lin_map ls x)) eq_refl eq_refl).
+  destruct H as (o & Eo & H). exists (lin_map ls x), o. split; [apply lin_map_c_is|]. split; [exact Eo|exact H].
+Qed.
+
+(* ---------- the whole case ---------- *)
+Definition case_ok (c : case16) : Prop :=
+  match c with
+  | K_newlog mn mx base st rmn rmx rb =>
+      newlog_ok mn mx base st rmn rmx rb /\
+      (forall a b, mn = XFin a -> mx = XFin b -> newlog_fin_ok a b base st rmn rmx rb)
+  | K_scale (SLin l) b r ps g ys yg =>
+      (~ r == 0 -> Forall (fun p => p_x2 p == p_x p * r) ps) /\ lin_scale_ok l r ps g ys yg
+  | K_scale (SLog gs) b r ps g ys yg =>
+      0 < g_min gs * g_max gs /\ g_clamp gs = false /\
+      (~ r == 0 -> Forall (fun p => p_x2 p == p_x p * r) ps) /\ log_scale_ok gs b r ps g ys yg
+  | K_qq src bs dst bd xs ys =>
+      Forall (fun p => exists x, q_x p = XFin x) (xs ++ ys) /\ qq_ok src bs dst bd xs ys
+  end.
+
+Lemma p_scalecase_some l s b r ps g ys yg rest : p_scalecase l = Some (K_scale s b r ps g ys yg, rest) ->
+  sc_clamp s = false /\ match s with SLog g => 0 < g_min g * g_max g | SLin _ => True end /\ shift_ok r ps = true.
+Proof.
+  unfold p_scalecase. intro H. apply pbind_some in H. destruct H as ([s0 b0] & r1 & Hs & H).
+  apply pbind_some in H. destruct H as (r0 & r2 & _ & H).
+  apply pbind_some in H. destruct H as (ps0 & r3 & _ & H).
+  apply pbind_some in H. destruct H as (g0 & r4 & _ & H).
+  apply pbind_some in H. destruct H as (ys0 & r5 & _ & H).
+  apply pbind_some in H. destruct H as (yg0 & r6 & _ & H).
+  destruct (shift_ok r0 ps0) eqn:S; cbn [negb] in H; [|discriminate].
+  apply pend_some in H. destruct H as [H _]. injection H as -> -> -> -> -> -> ->.
+  apply p_scale_some in Hs. destruct Hs. auto.
+Qed.
+
+Lemma p_qprobe_some l p r : p_qprobe l = Some (p, r) -> exists x, q_x p = XFin x.
+Proof.
+  unfold p_qprobe. intro H. apply pbind_some in H. destruct H as (x & r1 & _ & H).
+  apply pbind_some in H. destruct H as (a & r2 & _ & H).
+  apply pbind_some in H. destruct H as (b & r3 & _ & H).
+  apply pbind_some in H. destruct H as (c & r4 & _ & H).
+  apply pbind_some in H. destruct H as (d & r5 & _ & H).
+  apply pret_some in H. destruct H as [-> _]. exists x. reflexivity.
+Qed.
+Lemma p_qqcase_some l src bs dst bd xs ys rest : p_qqcase l = Some (K_qq src bs dst bd xs ys, rest) ->
+  Forall (fun p => exists x, q_x p = XFin x) (xs ++ ys).
+Proof.
+  unfold p_qqcase. intro H. apply pbind_some in H. destruct H as ([s0 b0] & r1 & _ & H).
+  apply pbind_some in H. destruct H as ([d0 b1] & r2 & _ & H).
+  apply pbind_some in H. destruct H as (xs0 & r3 & Hx & H).
+  apply pbind_some in H. destruct H as (ys0 & r4 & Hy & H).
+  apply pend_some in H. destruct H as [H _]. injection H as -> -> -> -> -> ->.
+  apply plist_some in Hx, Hy. destruct Hx as (n & r0 & _ & _ & Hx & _). destruct Hy as (n' & r0' & _ & _ & Hy & _).
+  apply Forall_app. split; eapply prep_Forall; try eassumption; intros ? ? ?; apply p_qprobe_some.
+Qed.
+
+(* MAIN: an accepted line parses completely into a case all of whose comparisons hold *)
+Theorem check_ok_sound line c tag pos diag :
+  check_C16 line = verdict c tag pos diag -> (c = 0 \/ c = 1)%Z ->
+  exists cs, p_case16 line = Some (cs, []) /\ case_ok cs.
+Proof.
+  intros H C. destruct (check_C16_accepted _ _ _ _ _ H C) as (cs & P & V). exists cs. split; [exact P|].
+  unfold p_case16 in P. destruct line as [|a [|k r]]; try discriminate.
+  destruct (negb (a =? 16)%Z); [discriminate|].
+  destruct (k =? 0)%Z; [|destruct (k =? 1)%Z; [|destruct (k =? 2)%Z; [|discriminate]]].
+  - destruct cs as [mn mx base st rmn rmx rb| |].
+    + cbn [compare16] in V. pose proof (compare_newlog_sound _ _ _ _ _ _ _ _ _ _ _ V C) as N. split; [exact N|].
+      intros a0 b0 -> ->. exact (newlog_ok_fin _ _ _ _ _ _ _ N).
+    + exfalso. unfold p_newlog in P. repeat (apply pbind_some in P; destruct P as (? & ? & _ & P)). apply pend_some in P. destruct P as [P _]. discriminate.
+    + exfalso. unfold p_newlog in P. repeat (apply pbind_some in P; destruct P as (? & ? & _ & P)). apply pend_some in P. destruct P as [P _]. discriminate.
+  - destruct cs as [|s b r0 ps g ys yg|].
+    + exfalso. unfold p_scalecase in P. apply pbind_some in P. destruct P as ([s0 b0] & ? & _ & P).
+      repeat (apply pbind_some in P; destruct P as (? & ? & _ & P)).
+      destruct (negb _); [discriminate|]. apply pend_some in P. destruct P as [P _]. discriminate.
+    + cbn [compare16] in V. apply finish_accepted in V; [|exact C].
+      destruct (p_scalecase_some _ _ _ _ _ _ _ _ _ P) as (Cl & Dom & Sh).
+      destruct s as [l|gs]; cbn [case_ok].
+      * split; [exact (shift_ok_sound _ _ Sh)|]. exact (compare_scale_lin l b r0 ps g ys yg Cl V).
+      * split; [exact Dom|]. split; [exact Cl|]. split; [exact (shift_ok_sound _ _ Sh)|]. exact (compare_scale_log gs b r0 ps g ys yg V).
+    + exfalso. unfold p_scalecase in P. apply pbind_some in P. destruct P as ([s0 b0] & ? & _ & P).
+      repeat (apply pbind_some in P; destruct P as (? & ? & _ & P)).
+      destruct (negb _); [discriminate|]. apply pend_some in P. destruct P as [P _]. discriminate.
+  - destruct cs as [| |src bs dst bd xs ys].
+    + exfalso. unfold p_qqcase in P. apply pbind_some in P. destruct P as ([s0 b0] & ? & _ & P).
+      apply pbind_some in P. destruct P as ([d0 b1] & ? & _ & P).
+      repeat (apply pbind_some in P; destruct P as (? & ? & _ & P)). apply pend_some in P. destruct P as [P _]. discriminate.
+    + exfalso. unfold p_qqcase in P. apply pbind_some in P. destruct P as ([s0 b0] & ? & _ & P).
+      apply pbind_some in P. destruct P as ([d0 b1] & ? & _ & P).
+      repeat (apply pbind_some in P; destruct P as (? & ? & _ & P)). apply pend_some in P. destruct P as [P _]. discriminate.
+    + cbn [compare16] in V. apply finish_accepted in V; [|exact C]. split.
+      * exact (p_qqcase_some _ _ _ _ _ _ _ _ P).
+      * exact (compare_qq_sound _ _ _ _ _ _ V).
+Qed.
